@@ -18,8 +18,10 @@ func init() {
 			}},
 		{ID: "E1.sig.reject-missing", Fn: "oidc.CheckSignature", Kind: "ret fail", Pat: "ret(oidc.ErrSignatureMissing)", Req: []string{"eq(len($jws.Signatures), 0)"}},
 		{ID: "E1.sig.reject-multiple", Fn: "oidc.CheckSignature", Kind: "ret fail", Pat: "ret(oidc.ErrSignatureMultiple)", Req: []string{"lt(1, len($jws.Signatures))"}},
-		{ID: "E7.sig.default-algs", Fn: "oidc.toJoseSignatureAlgorithms", Kind: "call", Pat: "append($out, jose.RS256, jose.ES256, jose.PS256)", Req: []string{"eq(len($out), 0)"},
+		{ID: "E7.sig.default-algs.append", AltOf: "E7.sig.default-algs", Fn: "oidc.toJoseSignatureAlgorithms", Kind: "call", Pat: "append($out, jose.RS256, jose.ES256, jose.PS256)", Req: []string{"eq(len($out), 0)"},
 			Why: "the default allow-list is asymmetric only (no none, no HS*)"},
+		{ID: "E7.sig.default-algs.literal", AltOf: "E7.sig.default-algs", Fn: "oidc.toJoseSignatureAlgorithms", P: []string{"algorithms"}, Kind: "ret any",
+			Pat: "ret([]jose.SignatureAlgorithm{jose.RS256, jose.ES256, jose.PS256})", Nots: []string{"ret([]jose.SignatureAlgorithm{3: _})"}, Req: []string{"eq(len($algorithms), 0)"}},
 		{ID: "E7.sig.default-algs.only", Fn: "oidc.toJoseSignatureAlgorithms", Kind: "call", Pat: "append(__)", Max: 1, Req: nil},
 
 		{ID: "E1.parse.three-segments", Fn: "oidc.ParseToken", P: []string{"tokenString", "claims"}, Kind: "ret ok",
@@ -38,7 +40,7 @@ func init() {
 		{ID: "E1.decoder-verifies.jwt-assertion", Fn: "op.VerifyJWTAssertion", P: []string{"ctx", "assertion", "v"}, Kind: "ret ok", Max: 1,
 			Req: []string{"ok(oidc.ParseToken($assertion, $r0))", "def($payload, oidc.ParseToken($assertion, $r0), 0)",
 				"ok(oidc.CheckSignature(_, $assertion, $payload, $r0, nil, $ks))",
-				"(def($ks, $v.keySet) && nonnil($ks)) || def($ks, &jwtProfileKeySet{storage: $v.Storage, clientID: $r0.Issuer})"}},
+				"(def($ks, $v.keySet) && nonnil($v.keySet)) || def($ks, &jwtProfileKeySet{storage: $v.Storage, clientID: $r0.Issuer})"}},
 		{ID: "E1.decoder-verifies.request-object", Fn: "op.ParseRequestObject", P: []string{"ctx", "authReq", "storage", "issuer"}, Kind: "call", Pat: "op.CopyRequestObjectToAuthRequest($authReq, $ro)",
 			Req: []string{"ok(oidc.ParseToken($authReq.RequestParam, $ro))", "def($payload, oidc.ParseToken($authReq.RequestParam, $ro), 0)",
 				"ok(oidc.CheckSignature(_, $authReq.RequestParam, $payload, $ro, nil, &jwtProfileKeySet{storage: $storage, clientID: $ro.Issuer}))"}},
@@ -70,8 +72,9 @@ func init() {
 		{ID: "E1.findkey.single", Fn: "oidc.FindMatchingKey", Kind: "ret ok", Pat: "ret($vk[0], nil)", Req: []string{"eq(len($vk), 1)"}},
 		{ID: "E1.findkey.only", Fn: "oidc.FindMatchingKey", Kind: "ret ok", Max: 2},
 		{ID: "E1.findkey.ambiguous", Fn: "oidc.FindMatchingKey", Kind: "ret fail", Pat: "ret(_, oidc.ErrKeyMultiple)", Req: []string{"lt(1, len($vk))"}},
-		{ID: "E7.algkeytype.rsa", Fn: "oidc.algToKeyType", P: []string{"key", "alg"}, Kind: "ret any", Pat: "ret($ok)", Not: "ret(false)", Min: 3,
-			Req: []string{`((true(strings.HasPrefix($alg, "RS")) || true(strings.HasPrefix($alg, "PS"))) && def($ok, $key.(*rsa.PublicKey), 1)) || (true(strings.HasPrefix($alg, "ES")) && def($ok, $key.(*ecdsa.PublicKey), 1)) || (eq($alg, jose.EdDSA) && def($ok, $key.(ed25519.PublicKey), 1))`}},
+		{ID: "E7.algkeytype.rsa", Fn: "oidc.algToKeyType", P: []string{"key", "alg"}, Kind: "ret ok",
+			Why: "a key fits an algorithm only if its Go type is the public-key type of that algorithm family",
+			Req: []string{`((true(strings.HasPrefix($alg, "RS")) || true(strings.HasPrefix($alg, "PS"))) && is($key, *rsa.PublicKey)) || (true(strings.HasPrefix($alg, "ES")) && is($key, *ecdsa.PublicKey)) || (eq($alg, jose.EdDSA) && is($key, ed25519.PublicKey))`}},
 	}
 	register(&PropSpec{
 		ID: "C02",
